@@ -201,13 +201,26 @@ def r4_3(repo: Repo) -> RuleResult:
             rr.bad(f, construct, "the slice handed to the worker is not `%s[start:end]` of the generated boundaries" % seq, comp.lineno)
     if n_sites < 2:
         raise AnalysisError("R4.3: expected the build and the EM chunk comprehension, found %d" % n_sites)
-    # boundary generators (base + overrides)
+    # boundary generators (base + overrides); names are derived, not assumed
     gens = [g for g in repo.all_funcs() if g.name == "_generate_chunk_boundaries"]
     for g in gens:
         data = g.params[1]
         problems = []
+        rets = [n for n in walk_no_nested(g.node) if isinstance(n, ast.Return) and isinstance(n.value, ast.Name)]
+        if len(rets) != 1:
+            raise AnalysisError("R4.3: %s does not return its chunk list by name" % g.key)
+        lst = rets[0].value.id
+        appends = [n for n in ast.walk(g.node) if isinstance(n, ast.Call) and isinstance(n.func, ast.Attribute)
+                   and n.func.attr == "append" and norm(n.func.value) == lst]
+        tuples = [a.args[0] for a in appends if a.args and isinstance(a.args[0], ast.Tuple) and len(a.args[0].elts) == 2]
+        if len(tuples) != len(appends) or not tuples or not all(isinstance(t.elts[0], ast.Name) for t in tuples):
+            raise AnalysisError("R4.3: chunk pairs not recognised in %s" % g.key)
+        cursors = {t.elts[0].id for t in tuples}
+        if len(cursors) != 1:
+            problems.append("chunks start at different cursors %s" % sorted(cursors))
+        cur = sorted(cursors)[0]
         assigns = [n for n in walk_no_nested(g.node) if isinstance(n, ast.Assign) and any(
-            isinstance(t, ast.Name) and t.id == "last_chunk_end" for t in n.targets)]
+            isinstance(t, ast.Name) and t.id == cur for t in n.targets)]
         loops = [n for n in g.node.body if isinstance(n, ast.For)]
         if len(loops) != 1:
             raise AnalysisError("R4.3: %s no longer has a single boundary loop" % g.key)
@@ -215,36 +228,27 @@ def r4_3(repo: Repo) -> RuleResult:
         init = [a for a in assigns if a.lineno < lp.lineno]
         if len(init) != 1 or norm(init[0].value) != "0":
             problems.append("first chunk does not start at 0")
-        appends = [n for n in ast.walk(g.node) if isinstance(n, ast.Call) and isinstance(n.func, ast.Attribute)
-                   and n.func.attr == "append" and norm(n.func.value) == "chunks"]
         pm = parents_map(g.node)
         in_loop = [a for a in appends if any(a is x for x in ast.walk(lp))]
         after = [a for a in appends if a not in in_loop]
         for a in in_loop:
             tup = a.args[0]
-            if not (isinstance(tup, ast.Tuple) and len(tup.elts) == 2 and norm(tup.elts[0]) == "last_chunk_end"):
-                problems.append("a chunk does not start where the previous one ended")
-                continue
             st = enclosing_stmt(a, pm)
             parent = pm[id(st)]
             body = None
             for fld in ("body", "orelse"):
-                if any(st is s for s in getattr(parent, fld, [])):
+                if any(st is s2 for s2 in getattr(parent, fld, [])):
                     body = getattr(parent, fld)
-            idx = [i for i, s in enumerate(body) if s is st][0]
-            follow = [s for s in body[idx + 1:] if isinstance(s, ast.Assign) and any(
-                isinstance(t, ast.Name) and t.id == "last_chunk_end" for t in s.targets)]
+            idx = [i for i, s2 in enumerate(body) if s2 is st][0]
+            follow = [s2 for s2 in body[idx + 1:] if isinstance(s2, ast.Assign) and any(
+                isinstance(t, ast.Name) and t.id == cur for t in s2.targets)]
             if not follow or norm(follow[0].value) != norm(tup.elts[1]):
-                problems.append("last_chunk_end is not advanced to the end of the chunk just emitted")
-        if len(after) != 1 or not (
-            isinstance(after[0].args[0], ast.Tuple)
-            and norm(after[0].args[0].elts[0]) == "last_chunk_end"
-            and norm(after[0].args[0].elts[1]) == "len(%s)" % data
-        ):
-            problems.append("final chunk does not run from last_chunk_end to len(%s)" % data)
+                problems.append("the cursor is not advanced to the end of the chunk just emitted")
+        if len(after) != 1 or norm(after[0].args[0].elts[1]) != "len(%s)" % data:
+            problems.append("final chunk does not run from the cursor to len(%s)" % data)
         loop_assigns = [a for a in assigns if any(a is x for x in ast.walk(lp))]
         if len(assigns) != len(init) + len(loop_assigns) or len(loop_assigns) != len(in_loop):
-            problems.append("unexpected extra assignment to last_chunk_end")
+            problems.append("unexpected extra assignment to the cursor `%s`" % cur)
         if problems:
             rr.bad(g, "chunk boundaries", "; ".join(problems), g.node.lineno)
         else:
